@@ -8,7 +8,14 @@
 //!   res   := E | group,group,...            (E: the protocol analyzer returned an error for the packet)
 //!   group := - | <sig hex>~<match with matcher>~<match without matcher>
 //!   match := X (group has no match part) | D | N | M<hex>   optionally followed by +<diagnosis hex>
+//! kind K (concrete composition, HTTP disabled):  <t>0<l><m><d> K <cap> <t ms>:<frame hex> ...
+//!   MODEL = coq/Model/Unified.v unified_run over the packet-level TCP analyzer model and the stateless TLS path
+//!   (coq/Model/AnalyzerReports.v); run = HuginnNet::analyze_tcp with the per-packet injected clock; own rendering:
+//!   packets joined by ';', the 8 groups by '^': signature Display | <mtu>~<M+link hex|X|D> | uptime token | TLS token | '-'
 //! result: one token per packet joined by ';' : 8 groups joined by ',' each '-' or <sig hex>~<match>
+#[path = "../../c07/src/concrete.rs"]
+#[allow(dead_code)]
+mod concrete;
 use hnv_common::pkt::*;
 use hnv_common::*;
 use huginn_net_db::{Database, MatchQualityType};
@@ -162,8 +169,42 @@ fn unified_tokens(cfgbits: &str, frames: &[Vec<u8>], db: &Database) -> String {
 
 thread_local! { static DB: Database = Database::load_default().expect("db"); }
 
+fn k_tokens(cfgbits: &str, cap: usize, evs: &[(u64, Vec<u8>)], db: &Database) -> String {
+    let b: Vec<bool> = cfgbits.chars().map(|c| c == '1').collect();
+    let cfg = huginn_net::AnalysisConfig { tcp_enabled: b[0], http_enabled: b[1], tls_enabled: b[2], matcher_enabled: b[3] };
+    let mut a = match huginn_net::HuginnNet::new(if b[4] { Some(db) } else { None }, cap, Some(cfg)) { Ok(a) => a, Err(_) => return "CTORERR".to_string() };
+    let mut toks = Vec::new();
+    for (t, f) in evs {
+        cflow::set_clock(*t);
+        let r = a.analyze_tcp(f);
+        cflow::clear_clock();
+        let link = |m: &huginn_net_tcp::output::MTUOutput| match (&m.link.quality, &m.link.link) {
+            (MatchQualityType::Disabled, _) => "D".to_string(),
+            (_, Some(l)) => format!("M+{}", hex(l.as_bytes())),
+            _ => "X".to_string(),
+        };
+        let gs: Vec<String> = vec![
+            r.tcp_syn.as_ref().map(|x| x.sig.matching.to_string()).unwrap_or_else(|| "-".into()),
+            r.tcp_syn_ack.as_ref().map(|x| x.sig.matching.to_string()).unwrap_or_else(|| "-".into()),
+            r.tcp_mtu.as_ref().map(|x| format!("{}~{}", x.mtu, link(x))).unwrap_or_else(|| "-".into()),
+            r.tcp_client_uptime.as_ref().map(|x| concrete::up(x)).unwrap_or_else(|| "-".into()),
+            r.tcp_server_uptime.as_ref().map(|x| concrete::up(x)).unwrap_or_else(|| "-".into()),
+            if r.http_request.is_some() { "!http".into() } else { "-".into() },
+            if r.http_response.is_some() { "!http".into() } else { "-".into() },
+            r.tls_client.as_ref().map(|x| concrete::tls_seq_token(x)).unwrap_or_else(|| "-".into()),
+        ];
+        toks.push(gs.join("^"));
+    }
+    toks.join(";")
+}
+
 fn run(line: &str) -> String {
     let toks: Vec<&str> = line.split(' ').collect();
+    if toks[1] == "K" {
+        let cap: usize = toks[2].parse().unwrap();
+        let evs: Vec<(u64, Vec<u8>)> = toks[3..].iter().map(|t| { let (a, b) = t.split_once(':').unwrap(); (a.parse().unwrap(), unhex_or_dash(b)) }).collect();
+        return DB.with(|db| k_tokens(toks[0], cap, &evs, db));
+    }
     let fpos = toks.iter().position(|t| *t == "F").unwrap();
     let frames: Vec<Vec<u8>> = toks[fpos + 1..].iter().map(|h| unhex_or_dash(h)).collect();
     DB.with(|db| unified_tokens(toks[0], &frames, db))
@@ -295,6 +336,26 @@ fn gen(r: &mut Rng, tier: &Tier, out: &mut Vec<String>) {
             let bits = format!("{}{}{}{}{}", c & 1, (c >> 1) & 1, (c >> 2) & 1, (c >> 3) & 1, (c >> 4) & 1);
             out.push(format!("{} N {} F {}", bits, emb, fr.join(" ")));
         }
+    }
+    // kind K: concrete composition (TCP analyzer model + stateless TLS path), HTTP disabled
+    for case in 0..tier.scale(120, 1500) {
+        let n = 1 + r.below(4) as usize;
+        let mut conns: Vec<Vec<cflow::Frame>> = Vec::new();
+        for j in 0..n {
+            let ck = *r.pick(&[1u64, 1, 2, 0]);
+            let sp = cflow::ConnSpec::new(ck, r.chance(1, 4), (case as u64 * 11 + j as u64 * 37) % 4000 + j as u64 * 6000);
+            let t0 = 1_000_000 + r.below(1000);
+            conns.push(cflow::connection(r, &sp, t0));
+        }
+        if case % 4 == 1 { let t0 = 1_000_000 + r.below(500); let v6 = r.chance(1, 3); conns.push(concrete::odd_ts_connection(r, v6, 300 + case as u64 % 100, t0)); }
+        if case % 6 == 5 { for c in conns.iter_mut() { for (f, _) in c.iter_mut() { if r.chance(1, 4) { concrete::mutate(r, f); } } } }
+        let mut tr: Vec<cflow::Frame> = cflow::interleave(r, &conns, case % 5 == 0).into_iter().map(|(_, f)| f).collect();
+        if r.chance(1, 3) { let frames: Vec<Vec<u8>> = tr.iter().map(|(f, _)| f.clone()).collect(); let j = junk(r, &frames); let pos = r.below(tr.len() as u64 + 1) as usize; tr.insert(pos, (j, 1_000_500)); }
+        let cfgbits = *r.pick(&["10111", "10111", "10111", "10101", "10101", "10100", "00111", "00101", "10011", "10001", "10110"]);
+        let cap = if case % 8 == 3 { 1 + r.below(4) as usize } else { 1000 };
+        let mut line = format!("{} K {}", cfgbits, cap);
+        for (f, t) in &tr { line.push_str(&format!(" {}:{}", t, hex_or_dash(f))); }
+        out.push(line);
     }
 }
 
